@@ -65,6 +65,8 @@ pub struct Cov {
     pub ops: BTreeMap<String, u64>,
     pub vlen_classes: BTreeMap<String, u64>,
     pub klen: BTreeMap<String, u64>,
+    /// sizes of the batches of the bulk calls
+    pub batch: BTreeMap<String, u64>,
     pub cmps: u64,
     pub found_hits: u64,
     pub overwrite: u64,
@@ -86,6 +88,9 @@ impl Cov {
         for (k, v) in &o.klen {
             *self.klen.entry(k.clone()).or_default() += v;
         }
+        for (k, v) in &o.batch {
+            *self.batch.entry(k.clone()).or_default() += v;
+        }
         self.cmps += o.cmps;
         self.found_hits += o.found_hits;
         self.overwrite += o.overwrite;
@@ -96,6 +101,18 @@ impl Cov {
         for (k, v) in &o.model_branches {
             *self.model_branches.entry(k.clone()).or_default() += v;
         }
+    }
+}
+
+pub fn batch_class(l: usize) -> String {
+    match l {
+        0 => "0".into(),
+        1 => "1".into(),
+        2..=8 => "2-8".into(),
+        9..=32 => "9-32".into(),
+        33..=200 => "33-200".into(),
+        201..=1024 => "201-1024".into(),
+        _ => ">1024".into(),
     }
 }
 
@@ -373,10 +390,12 @@ pub fn run_seq_with_state(seq: &Seq, dir: &Path, driver: &mut Option<Driver>, op
                 want = Some(ask(driver, format!("{} noop {}", name, op.kind())));
             }
             Op::BulkGet(ks) => {
+                *cov.batch.entry(batch_class(ks.len())).or_default() += 1;
                 let r: Vec<String> = ks.iter().map(|k| ask(driver, format!("{} get {}", name, k.tok()))).collect();
                 want = Some(if opts.model && driver.is_some() { r.join("|") } else { "-".into() });
             }
             Op::BulkDel(ks) => {
+                *cov.batch.entry(batch_class(ks.len())).or_default() += 1;
                 let kb: Vec<Vec<u8>> = ks.iter().map(|k| k.bytes()).collect();
                 let mut r = vec![String::new(); ks.len()];
                 for j in sorted_order(&kb) {
@@ -385,6 +404,7 @@ pub fn run_seq_with_state(seq: &Seq, dir: &Path, driver: &mut Option<Driver>, op
                 want = Some(if opts.model && driver.is_some() { r.join("|") } else { "-".into() });
             }
             Op::BulkPut(kvs) | Op::BulkPutString(kvs) => {
+                *cov.batch.entry(batch_class(kvs.len())).or_default() += 1;
                 let kb: Vec<Vec<u8>> = kvs.iter().map(|k| k.0.bytes()).collect();
                 let mut ok = true;
                 for j in sorted_order(&kb) {
@@ -394,6 +414,7 @@ pub fn run_seq_with_state(seq: &Seq, dir: &Path, driver: &mut Option<Driver>, op
                 want = Some(if !(opts.model && driver.is_some()) { "-".into() } else if ok { "ok".into() } else { "FAIL".into() });
             }
             Op::PutFromIter(kvs) => {
+                *cov.batch.entry(batch_class(kvs.len())).or_default() += 1;
                 let mut ok = true;
                 for (k, v) in kvs {
                     let a = ask(driver, format!("{} put {} {}", name, k.tok(), v.tok()));
